@@ -163,6 +163,11 @@ struct Model {
     zombie_finished: bool,
 }
 
+pub fn trace_on() -> bool {
+    static ON: std::sync::OnceLock<bool> = std::sync::OnceLock::new();
+    *ON.get_or_init(|| std::env::var("VERIF_TRACE").is_ok())
+}
+
 /// the accept loop's knowledge of a worker's availability, as far as the harness can tell
 #[derive(Clone, Copy, Debug, PartialEq, Eq)]
 enum Tri {
@@ -184,6 +189,9 @@ impl Model {
     /// absorb new entries of the SUT's dispatch log
     fn process_log(&mut self) {
         for d in hv::take_dispatch_log() {
+            if trace_on() {
+                eprintln!("TRACE   dispatch token {} -> worker {:?}", d.token, d.worker);
+            }
             let Some(id) = self.backlog.get_mut(d.token).and_then(|b| b.pop_front()) else {
                 self.flag(Prop::C01, "C01/phantom-dispatch", format!("a connection was dispatched for listener {} although none was waiting there", d.token));
                 continue;
@@ -628,6 +636,10 @@ impl Engine {
     }
 
     async fn run_op(&mut self, op: Op, nl: usize, nw: usize) {
+        if trace_on() {
+            let m = self.model.borrow();
+            eprintln!("TRACE op {:?}  | loads {:?} alive {:?} rot {:?} backlog {:?} pending {:?}", op, (0..m.workers.len()).map(|w| (m.workers[w].queued.len(), m.workers[w].live.len(), m.workers[w].zombies.len())).collect::<Vec<_>>(), m.workers.iter().map(|s| s.alive).collect::<Vec<_>>(), m.workers.iter().map(|s| s.in_rotation).collect::<Vec<_>>(), m.backlog.iter().map(|b| b.len()).collect::<Vec<_>>(), m.pending_ctl);
+        }
         match op {
             Op::Connect { l } => self.connect(vcore::pick(l, nl)),
             Op::ConnectRace { l } => {
